@@ -549,6 +549,10 @@ Proof.
     split; [intros i r Hi; destruct i; discriminate|simpl; auto].
   - eapply Inv1_calls; [exact I|]. apply allpw_snoc; [apply I|].
     split; [intros i r Hi; destruct i; discriminate|simpl; auto].
+  - (* Assign after Close: the call is rejected *)
+    match goal with E : nth_error (s_calls s) ?c = Some ?cl |- _ =>
+      pose proof (proj1 (proj2 I) _ _ E) as [R Ph];
+      eapply Inv1_calls; [exact I|]; apply allpw_upd; [apply I|]; split; simpl; auto end.
   - (* Assign *) eapply Inv1_assign; eauto.
   - (* Timer *)
     match goal with E : nth_error (s_pws s) ?p = Some ?pw |- _ =>
@@ -941,6 +945,8 @@ Proof.
   destruct l; unfold step in H; step_destruct H; inv H;
     unfold with_pw_done, with_pw, ret_call, add_call; cbn [s_pws s_calls s_journal s_log].
   1-4: (eapply Inv2_calls; [exact I2|intros; apply owned_snoc; auto|eapply admissible_nodup; eauto; apply I2]).
+  - (* Assign after Close *)
+    eapply Inv2_calls; [exact I2|intros; eapply owned_upd; eauto|erewrite used_ids_upd; eauto; apply I2].
   - (* Assign *) eapply Inv2_assign; eauto.
   - (* Timer *)
     match goal with E : nth_error (s_pws s) ?p = Some ?pw |- _ =>
@@ -1153,6 +1159,10 @@ Proof.
   destruct l; unfold step in H; step_destruct H; inv H;
     unfold with_pw_done, with_pw, ret_call, add_call; cbn [s_pws s_calls s_journal s_log s_compl].
   1-4: (eapply Inv3_calls; [exact I3|]; apply allpw_snoc; [apply I3|intros _; reflexivity]).
+  - (* Assign after Close *)
+    eapply Inv3_calls; [exact I3|]. apply allpw_upd; [apply I3|]. intros _. simpl.
+    match goal with E : nth_error (s_calls s) ?c = Some ?cl, Ep : c_ph ?cl = CEntered |- _ =>
+      destruct (proj1 (proj2 I1) _ _ E) as [_ Ph]; rewrite Ep in Ph; exact Ph end.
   - (* Assign *) eapply Inv3_assign; eauto.
   - (* Timer *)
     match goal with E : nth_error (s_pws s) ?p = Some ?pw |- _ =>
